@@ -499,6 +499,61 @@ def s_scheme(url, via):
     cover("scheme-accepted" if ws is not None else "scheme-refused")
 
 
+def s_upgrade(port, conn_hdr, hops):
+    """a multi-step history: a ws:// connection is answered with a redirect to wss:// on the SAME host and port (the usual
+    'upgrade to TLS' redirect); the request for the wss target is never written in clear text and, if the connection is established,
+    it went through exactly one wrap with default verification"""
+    quiet_logging()
+    import websocket
+    REC["wraps"].clear()
+    REC["contexts"].clear()
+    target = "origin.example"
+    hp = target if port is None else "%s:%d" % (target, port)
+    n = [0]
+
+    def respond(server, head, key):
+        n[0] += 1
+        if n[0] <= hops:
+            extra = "" if conn_hdr is None else "Connection: %s\r\n" % conn_hdr
+            scheme = "wss" if n[0] == hops else "ws"
+            resp = ("HTTP/1.1 302 Found\r\nLocation: %s://%s/secure%d\r\n%sContent-Length: 0\r\n\r\n" % (scheme, hp, n[0], extra)).encode()
+            # an HTTP/1.1 server keeps the connection open after the redirect (unless it said close) and would answer a further request on it
+            return resp if conn_hdr == "close" else (resp, "more-http")
+        return ("HTTP/1.1 101 Switching Protocols\r\nUpgrade: websocket\r\nConnection: Upgrade\r\nSec-WebSocket-Accept: %s\r\n\r\n" % accept_for(key)).encode()
+
+    k = Kernel(step_budget=4000)
+    net = Net(k, [{"respond": respond}])
+    simnet.install(k, net)
+    ep = EnvPatch()
+    ep.replace(_ssl, FakeSSLModule())
+    ep.os_env({}, set(), set())
+    ws, err = None, None
+    try:
+        try:
+            ws = websocket.create_connection("ws://%s/start" % hp, timeout=5)
+        except (websocket.WebSocketException, ValueError, _ssl.SSLError) as e:
+            err = e
+        except (sx.Control, sx.ConcreteFailure, sx.ReplayMismatch):
+            raise
+        except Exception as e:
+            sx.require(False, "connect raised %s" % type(e).__name__, port=port)
+            return
+    finally:
+        ep.restore()
+        k.shutdown()
+        simnet.uninstall()
+    last = "/secure%d" % hops
+    clear = [r for r in net.requests if r[2].startswith("GET " + last + " ") and not net.socks[r[1]].tls]
+    sx.require(not clear, "the request for a wss:// redirect target is never written to a transport that was not wrapped (ws -> wss on the same host:port)",
+               port=port, conn_hdr=conn_hdr, hops=hops, outcome="connected" if ws is not None else type(err).__name__)
+    if ws is not None:
+        w = [x for x in REC["wraps"] if x["server_hostname"] == target]
+        sx.require(len(w) == 1 and w[0]["verify_mode"] == _ssl.CERT_REQUIRED and w[0]["check_hostname"] is True,
+                   "the redirected wss connection is wrapped once, with default verification", port=port, conn_hdr=conn_hdr, got=len(w))
+        sx.require(ws.sock is not None and getattr(ws.sock, "tls", False), "the connected object's transport is the wrapped one", port=port)
+    cover("upgrade-redirect")
+
+
 def obligations(tier):
     thr = list(PAIR_CFGS) if tier == "thorough" else ["default", "nohost", "certnone", "althost", "ciphers", "cafile"]
     return [
@@ -509,6 +564,10 @@ def obligations(tier):
                    outside=["acceptance/rejection of certificates by OpenSSL (C, FFI, live I/O)"],
                    must_cover=["plain", "tls", "default-verified", "user-context", "contradictory"], budget_s=1800, step_budget=200000,
                    kernel=["_http.connect", "_ssl_socket", "_wrap_sni_socket", "_tunnel", "_get_addrinfo_list"]),
+        Obligation("S-upgrade", s_upgrade, [dict(port=p, conn_hdr=c, hops=h) for p in (None, 80, 443, 8443) for c in (None, "keep-alive", "close") for h in (1, 2)],
+                   bounds="ws://host[:port] answered by 1..2 redirects ending in wss:// on the SAME host and port (port absent / 80 / 443 / 8443), "
+                          "Connection header of the redirect absent / keep-alive / close", must_cover=["upgrade-redirect"], step_budget=200000,
+                   kernel=["WebSocket.connect (redirect loop)", "_http.connect", "_http._ssl_socket"]),
         Obligation("S-shared", s_shared, [dict(kind=k) for k in ("two-calls", "empty", "redirect")],
                    bounds="one sslopt dict shared by two connections to different hosts / followed across a wss redirect", must_cover=["shared"],
                    step_budget=200000, kernel=["_http._ssl_socket", "WebSocket.connect (redirect)"]),
